@@ -33,6 +33,7 @@ let parse_op (line : string) : op =
   | "rel" -> ORelease (nn t.(1), str_of_tok t.(2))
   | "conn" -> OConnected (nn t.(1))
   | "disc" -> ODisconnected (nn t.(1))
+  | "dump" -> ODump
   | other -> failwith ("unknown op " ^ other)
 
 let sorted l = List.sort compare l
@@ -54,6 +55,14 @@ let result_tok (r : result) : string =
       "imp [" ^ String.concat ";" (sorted (List.map (fun ((k, e), ch) ->
         xs k ^ "=" ^ (match e with Plain v -> "P:" ^ js v | Cas (v, ver) -> "C" ^ dec_of_n ver ^ ":" ^ js v)
         ^ ":" ^ (if ch then "1" else "0")) l)) ^ "]"
+  | RDump (d, len) ->
+      let items = ref [] in
+      let rec walk (Node (v, cs)) (path : str list) =
+        let ptok = if path = [] then "-" else xs (join slash (List.rev path)) in
+        items := (ptok ^ (match (if path = [] then None else v) with None -> "" | Some (Plain j) -> "|P:" ^ js j | Some (Cas (j, ver)) -> "|C" ^ dec_of_n ver ^ ":" ^ js j)) :: !items;
+        List.iter (fun (k, c) -> walk c (k :: path)) cs in
+      walk d [];
+      "dump len=" ^ dec_of_n len ^ " nodes=[" ^ String.concat ";" (sorted !items) ^ "]"
   | RErr c -> "err " ^ dec_of_n c
   | RCrash -> "crash"
 
